@@ -457,5 +457,13 @@ CHECKS["C07"]["drivers"].append({"module": "harness.drv_gemap", "trace": "Trace_
 CHECKS["C12"]["drivers"].append({"module": "harness.drv_lineage", "trace": "Trace_Lineage", "advisory": True})
 # advisory: wrap_depth_minimization keeps the order of the problem it wraps and breaks ties towards shallower programs
 CHECKS["C13"]["drivers"].append({"module": "harness.drv_wrap", "trace": "Trace_Wrap", "advisory": True})
+# model of the pool tournaments draw from: the documented design keeps it intact, the code as it stands does not (advisory
+# observation, see Trace_Tournament); C17's membership clause holds in both
+CHECKS["C17"]["models"] = CHECKS["C17"]["models"] + [
+    {"module": "MC_TournamentPool", "cfg": "MC_TournamentPool_design_TRUE.cfg", "workers": 2},
+    {"module": "MC_TournamentPool", "cfg": "MC_TournamentPool_design_FALSE.cfg", "workers": 2},
+    {"module": "MC_TournamentPool", "cfg": "MC_TournamentPool_ascoded_TRUE.cfg", "workers": 2, "expect_violation": "PoolIntact is violated"},
+    {"module": "MC_TournamentPool", "cfg": "MC_TournamentPool_ascoded_FALSE.cfg", "workers": 2, "expect_violation": "PoolIntact is violated"},
+]
 # advisory: the pool each tournament draws its participants from (documented: the population)
 CHECKS["C17"]["drivers"].append({"module": "harness.drv_tournament", "trace": "Trace_Tournament", "advisory": True})
